@@ -20,6 +20,7 @@ fn main() {
     let mut out: Vec<Violation> = Vec::new();
     let (mut systems, mut oks, mut errs, mut warns, mut degen_warns, mut permuted, mut fallbacks, mut typed_lookups) =
         (0usize, 0usize, 0usize, 0usize, 0usize, 0usize, 0usize, 0usize);
+    let mut lint_warns = 0usize;
     for i in 0..n {
         let mut sys = match i % 4 {
             0 => gen_planted(&mut rng, 6, 1e-2, &SHAPES),
@@ -97,6 +98,10 @@ fn main() {
                         _ => {}
                     }
                 }
+                // accessor identities
+                if o.is_satisfied() != o.unsatisfied().is_empty() || o.is_unsatisfied() == o.unsatisfied().is_empty() {
+                    bad(format!("is_satisfied() = {}, is_unsatisfied() = {} but unsatisfied() = {:?}", o.is_satisfied(), o.is_unsatisfied(), o.unsatisfied()), "accessor-identity", &sys);
+                }
                 for w in o.warnings() {
                     warns += 1;
                     let Some(i) = w.about_constraint else {
@@ -123,6 +128,15 @@ fn main() {
                         WarningContent::ShouldBeParallel(_) | WarningContent::ShouldBePerpendicular(_) => {
                             if !matches!(c, Constraint::LinesAtAngle(_, _, AngleKind::Other(_))) {
                                 bad(format!("angle lint names request {i}, which is {}", c.constraint_kind()), "lint-names-wrong-request", &sys);
+                            } else if let Constraint::LinesAtAngle(_, _, AngleKind::Other(a)) = c {
+                                // ... and that request's angle really is a multiple of 90 degrees
+                                lint_warns += 1;
+                                let (is_deg, v) = ezpz_verif_harness::codec::angle_parts(a);
+                                let deg = if is_deg { v } else { v * 180.0 / std::f64::consts::PI };
+                                let m = (deg / 90.0).round() * 90.0;
+                                if (deg - m).abs() > 0.01 {
+                                    bad(format!("angle lint names request {i}, whose angle is {deg} degrees"), "lint-names-wrong-request", &sys);
+                                }
                             }
                         }
                     }
@@ -191,14 +205,30 @@ fn main() {
             rng.shuffle(&mut g);
             let dense_in_order = g.iter().enumerate().all(|(k, (id, _))| *id as usize == k);
             if !dense_in_order {
-                if let (Ok(a), Ok(b)) = (&res, solve(&sys.reqs, g.clone(), sys.config())) {
-                    // value reported for id v: the caller reads final_values()[v]
-                    let same = a.final_values().iter().zip(b.final_values()).all(|(x, y)| x.to_bits() == y.to_bits());
-                    if !same {
-                        let mut s2 = sys.clone();
-                        s2.guesses = g;
-                        bad("a guess list whose ids are not 0..n in order gives different values per id than the same guesses listed in order".into(), "guess-ids-not-dense-in-order", &s2);
+                let perm_res = solve(&sys.reqs, g.clone(), sys.config());
+                // known finding F5 predicts exactly ONE behaviour: the ids of the pairs are ignored, i.e.
+                // the permuted list behaves like the list [(0, g[0].1), (1, g[1].1), ...].  Only a
+                // difference that matches this prediction carries the known signature; anything else
+                // (values mis-addressed in another way, success turning into failure) is a new violation.
+                let by_position: Vec<(u32, f64)> = g.iter().enumerate().map(|(k, (_, v))| (k as u32, *v)).collect();
+                let predicted = solve(&sys.reqs, by_position, sys.config());
+                let same_as = |x: &Result<SolveOutcome, FailureOutcome>, y: &Result<SolveOutcome, FailureOutcome>| describe(x) == describe(y);
+                let mut s2 = sys.clone();
+                s2.guesses = g;
+                match (&res, &perm_res) {
+                    (Ok(a), Ok(b)) => {
+                        // value reported for id v: the caller reads final_values()[v]
+                        let same = a.final_values().iter().zip(b.final_values()).all(|(x, y)| x.to_bits() == y.to_bits());
+                        if !same {
+                            let sig = if same_as(&perm_res, &predicted) { "guess-ids-not-dense-in-order" } else { "guess-ids-mis-addressed-in-a-new-way" };
+                            bad("a guess list whose ids are not 0..n in order gives different values per id than the same guesses listed in order".into(), sig, &s2);
+                        }
                     }
+                    (Ok(_), Err(_)) | (Err(_), Ok(_)) => {
+                        let sig = if same_as(&perm_res, &predicted) { "guess-ids-not-dense-in-order" } else { "guess-ids-mis-addressed-in-a-new-way" };
+                        bad(format!("listing the same (id, guess) pairs in another order turns {} into {}", describe(&res).chars().take(40).collect::<String>(), describe(&perm_res).chars().take(40).collect::<String>()), sig, &s2);
+                    }
+                    (Err(_), Err(_)) => {}
                 }
             }
         }
@@ -210,7 +240,7 @@ fn main() {
         }
     }
     println!(
-        "STATS {{\"systems\": {systems}, \"ok\": {oks}, \"err\": {errs}, \"warnings_checked\": {warns}, \"degenerate_warnings\": {degen_warns}, \"fallback_outcomes\": {fallbacks}, \"permuted_guess_lists\": {permuted}, \"typed_lookup_rounds\": {typed_lookups}, \"violations\": {}}}",
+        "STATS {{\"systems\": {systems}, \"ok\": {oks}, \"err\": {errs}, \"warnings_checked\": {warns}, \"degenerate_warnings\": {degen_warns}, \"lint_warnings\": {lint_warns}, \"fallback_outcomes\": {fallbacks}, \"permuted_guess_lists\": {permuted}, \"typed_lookup_rounds\": {typed_lookups}, \"violations\": {}}}",
         out.len()
     );
 }
